@@ -1,12 +1,14 @@
-"""Rules specific to the ring-buffer channel (C01, C02)."""
+"""Rules specific to the ring-buffer channel (C01, C02): equality-domain
+dataflow for 'empty means drained', units-of-measure inference for the
+(lap, position) cursors, the writer's check-then-act guard, encapsulation."""
 from . import ir, paths
 from .build import AnalysisBroken
-from .locks import obj_key
+from .locks import obj_key, points_into, LockAnalysis
 
 CHANNEL_FIELDS = ["head", "high", "cycle", "mapped", "is_accepting_writes",
                   "holds.pos", "holds.cycles", "holds.n"]
 
-# units of measure of the cursor fields (from the comments of channel.h)
+# units of measure of the cursor fields (from the comments in channel.h)
 POS, CYC = "position", "lap"
 FIELD_DIM = {
     ("channel", "head"): POS, ("channel", "high"): POS, ("channel", "mapped"): POS,
@@ -24,15 +26,516 @@ def channel_functions(prog):
     return out
 
 
+# ---------------------------------------------------------------------------
+# equality domain
+
+class Eq:
+    """Partition of terms into equivalence classes plus disequalities between
+    classes; immutable."""
+
+    def __init__(self, classes=(), diseq=(), flags=()):
+        self.classes = frozenset(frozenset(c) for c in classes if len(c) > 0)
+        self.diseq = frozenset(frozenset(d) for d in diseq)
+        self.flags = frozenset(flags)
+
+    def key(self):
+        return (self.classes, self.diseq, self.flags)
+
+    def cls(self, t):
+        for c in self.classes:
+            if t in c:
+                return c
+        return frozenset([t])
+
+    def same(self, a, b):
+        return a == b or b in self.cls(a)
+
+    def differ(self, a, b):
+        ca, cb = self.cls(a), self.cls(b)
+        for d in self.diseq:
+            x, y = tuple(d) if len(d) == 2 else (None, None)
+            if x is None:
+                continue
+            if (x in ca and y in cb) or (x in cb and y in ca):
+                return True
+        # two different constants differ
+        ka = [t for t in ca if isinstance(t, tuple) and t[0] == "c"]
+        kb = [t for t in cb if isinstance(t, tuple) and t[0] == "c"]
+        return bool(ka and kb and ka[0] != kb[0])
+
+    def forget(self, t):
+        classes = [c - {t} for c in self.classes]
+        diseq = [d for d in self.diseq if t not in d]
+        return Eq(classes, diseq, self.flags)
+
+    def assign(self, t, src):
+        e = self.forget(t)
+        if src is None:
+            return e
+        cs = e.cls(src)
+        classes = [c for c in e.classes if c != cs] + [cs | {t, src}]
+        return Eq(classes, e.diseq, e.flags)
+
+    def assume_eq(self, a, b):
+        if self.differ(a, b):
+            return None  # infeasible
+        ca, cb = self.cls(a), self.cls(b)
+        classes = [c for c in self.classes if c != ca and c != cb] + [ca | cb]
+        return Eq(classes, self.diseq, self.flags)
+
+    def assume_ne(self, a, b):
+        if self.same(a, b):
+            return None
+        return Eq(self.classes, set(self.diseq) | {frozenset([a, b])}, self.flags)
+
+    def flag(self, f):
+        return Eq(self.classes, self.diseq, set(self.flags) | {f})
+
+
 def rule_empty_drained(prog, res):
-    res.oblige("R-EMPTY-DRAINED", "placeholder", True, "", "")
-    res.oblige("R-EMPTY-DRAINED", "placeholder2", True, "", "")
+    """At every return of channel_read_map where the byte count may be zero and
+    no error status was set on the path, the reader's hold cursor equals the
+    writer's (position and lap)."""
+    R = "R-EMPTY-DRAINED"
+    f = prog.func("channel_read_map")
+    res.touched(f)
+    la = LockAnalysis(prog)
+    al = la.aliases(f)
+    self_p = f.params[0]
+
+    def term(n):
+        """Canonical term of an expression, or None."""
+        n = ir.strip(n)
+        if not isinstance(n, dict):
+            return None
+        if n.get("k") == "int":
+            return ("c", n["v"])
+        if n.get("k") == "var" and not n.get("pd") and not n.get("r"):
+            return ("v", n["n"])
+        key = la.lvalue_key(f, n, al)
+        if key is not None and key[0] in ("channel", "channel_reader"):
+            return ("f",) + key
+        return None
+
+    T_POS, T_CYC = ("f", "channel", "holds.pos"), ("f", "channel", "holds.cycles")
+    H, C = ("f", "channel", "head"), ("f", "channel", "cycle")
+    Z = ("c", 0)
+    ST = ("f", "channel_reader", "status")
+    # which local holds the byte count: the variable that sizes the returned slice
+    nb = None
+    for b, i, s in f.all_stmts():
+        if s.get("k") == "ret" and isinstance(s.get("e"), dict):
+            for x in ir.walk(s["e"]):
+                if x.get("k") == "bin" and x.get("op") == "+" and ir.strip(x["r"]).get("k") == "var":
+                    nb = ("v", ir.strip(x["r"])["n"])
+    if nb is None:
+        raise AnalysisBroken("cannot identify the byte count of the slice channel_read_map returns")
+
+    def transfer(e, s):
+        # calls may change channel fields (reader_initialize)
+        for c in ir.calls_in(s):
+            if c.get("fn") not in ("lock_acquire", "lock_release", "aq_logger"):
+                g = prog.resolve(c["fn"], f) if c.get("fn") else None
+                if g is not None:
+                    for (k2, m2) in la.effects(g):
+                        if m2 == "w" and k2[0] in ("channel", "channel_reader"):
+                            e = e.forget(("f",) + k2)
+        for lv, op, rhs, w in ir.writes_of(s):
+            t = term(lv)
+            if t is None:
+                continue
+            if t == ST:
+                e = e.flag("status")
+            if op == "=":
+                e = e.assign(t, term(rhs))
+            else:
+                e = e.forget(t)
+        return e
+
+    def assume(e, cond, outcome):
+        c = ir.strip(cond)
+        if not isinstance(c, dict):
+            return e
+        if c.get("k") == "un" and c.get("op") == "!":
+            return assume(e, c["e"], not outcome)
+        if c.get("k") == "bin" and c["op"] in ("==", "!="):
+            a, b = term(c["l"]), term(c["r"])
+            if a is not None and b is not None:
+                eq = (c["op"] == "==") == outcome
+                return e.assume_eq(a, b) if eq else e.assume_ne(a, b)
+            return e
+        if c.get("k") == "bin" and c["op"] in ("<", ">"):
+            a, b = term(c["l"]), term(c["r"])
+            if a is not None and b is not None and outcome:
+                return e.assume_ne(a, b)
+            return e
+        t = term(c)
+        if t is not None:
+            return e.assume_ne(t, Z) if outcome else e.assume_eq(t, Z)
+        return e
+
+    # powerset dataflow (trace partitioning); the function is loop-free but the
+    # worklist handles loops by the visited set
+    init = Eq()
+    seen = set()
+    work = [(f.entry, init)]
+    returns = []
+    nstates = 0
+    while work:
+        bid, e = work.pop()
+        if (bid, e.key()) in seen:
+            continue
+        seen.add((bid, e.key()))
+        nstates += 1
+        blk = f.blocks[bid]
+        ret = None
+        for s in blk.stmts:
+            if s.get("k") == "ret":
+                ret = s
+                break
+            e = transfer(e, s)
+        if ret is not None:
+            returns.append((bid, ret, e))
+            continue
+        if len(blk.succs) >= 2 and blk.cond_node() is not None and blk.term != "switch":
+            for sc in blk.succs:
+                if sc.get("to") is None:
+                    continue
+                e2 = assume(e, blk.cond_node(), sc.get("label") == "true")
+                if e2 is not None:
+                    work.append((sc["to"], e2))
+        else:
+            for t in blk.succ_ids():
+                work.append((t, e))
+    if not returns:
+        raise AnalysisBroken("channel_read_map: no return reached")
+    n = 0
+    for bid, ret, e in returns:
+        if "status" in e.flags:
+            continue  # an error was reported on this path
+        if e.differ(nb, Z):
+            continue  # a non-empty region is returned
+        n += 1
+        okp, okc = e.same(T_POS, H), e.same(T_CYC, C)
+        inst = "channel_read_map: empty return, path state #%d" % n
+        if okp and okc:
+            res.oblige(R, inst, True,
+                       "reader's hold position = head and hold lap = writer's lap are provable on this path", f.loc(ret))
+        else:
+            missing = []
+            if not okp:
+                missing.append("hold position = head")
+            if not okc:
+                missing.append("hold lap = writer's lap")
+            known = sorted(str(sorted(map(str, c))) for c in e.classes if len(c) > 1)
+            res.fail(R, inst, "R-EMPTY-DRAINED|channel_read_map|%s" % "+".join(m.split(" =")[0].replace(" ", "-") for m in missing),
+                     f.loc(ret),
+                     "channel_read_map can return an empty region without an error while %s is not established: 'empty' does not mean 'drained' (a caught-up reader at a wrap sees nothing although the new lap holds committed data)"
+                     % " and ".join(missing), {"known_equalities": known})
+    res.extra["empty_drained_path_states"] = nstates
+    if n < 2:
+        raise AnalysisBroken("expected at least two empty-return path states in channel_read_map, found %d" % n)
 
 
 def rule_registration(prog, la, res):
-    pass
+    R = "R-REGISTER"
+    g = prog.func("reader_initialize")
+    res.touched(g)
+    ctx = la.contexts()[(g.tu, g.name)]
+    inst = "reader_initialize is only called with the channel lock held"
+    if ("channel", "lock") in ctx:
+        res.oblige(R, inst, True, "lockset at every call site contains channel.lock", g.loc())
+    else:
+        res.fail(R, inst, "R-REGISTER|unlocked", g.loc(),
+                 "a reader can be registered without the channel lock: its starting cursor races with the writer")
+    al = la.aliases(g)
+    okc = okp = False
+    for b, i, s in g.all_stmts():
+        for lv, op, rhs, w in ir.writes_of(s):
+            k = la.lvalue_key(g, lv, al)
+            if k == ("channel", "holds.cycles") and ir.ap(rhs) is not None and obj_key(ir.strip(rhs)) == ("channel", "cycle"):
+                okc = True
+            if k == ("channel", "holds.pos") and (ir.is_const(rhs, 0) or (ir.ap(rhs) and obj_key(ir.strip(rhs)) == ("channel", "head"))):
+                okp = True
+    inst = "a new reader starts at a write boundary of the writer's current lap"
+    if okc and okp:
+        res.oblige(R, inst, True, "hold lap := channel.cycle, hold position := 0 (or head)", g.loc())
+    else:
+        res.fail(R, inst, "R-REGISTER|start-cursor", g.loc(),
+                 "reader_initialize does not start the reader at (channel.cycle, 0 | head): it may begin inside a frame or in a lap the writer already left")
 
+
+# ---------------------------------------------------------------------------
+# units of measure
 
 def rule_dimensions(prog, res):
-    for i in range(10):
-        res.oblige("R-DIM", "placeholder%d" % i, True, "", "")
+    R = "R-DIM"
+    fns = channel_functions(prog)
+    la = LockAnalysis(prog)
+    dims = {}      # (fn, var id[, field]) -> dim ; (fn,'ptr',var id) -> pointee dim
+    aliases = {f.name: la.aliases(f) for f in fns}
+    findings = []
+    checks = []
+
+    def dim(f, n):
+        n = ir.strip(n)
+        if not isinstance(n, dict):
+            return None
+        k = n.get("k")
+        if k == "int":
+            return None
+        if k == "var":
+            return dims.get((f.name, n["id"]))
+        if k in ("mem", "deref", "idx"):
+            key = la.lvalue_key(f, n, aliases[f.name])
+            if key is not None and key[0] != "param":
+                return FIELD_DIM.get(key)
+            if key is not None and key[0] == "param":
+                return dims.get((f.name, "ptr", f.params[key[1]]["id"]))
+            if k == "mem":
+                root, chain = ir.field_chain(n)
+                if isinstance(root, dict) and root.get("k") == "var":
+                    return dims.get((f.name, root["id"], ".".join(x for _, x in chain)))
+            return None
+        if k == "bin":
+            if n["op"] in ("+", "-"):
+                a, b = dim(f, n["l"]), dim(f, n["r"])
+                if a and b and a != b:
+                    findings.append((f, n, "adds/subtracts a %s and a %s" % (a, b)))
+                return a or b
+            return None
+        if k == "cond":
+            return dim(f, n.get("t")) or dim(f, n.get("f"))
+        return None
+
+    def setdim(key, d):
+        if d and dims.get(key) is None:
+            dims[key] = d
+            return True
+        return False
+
+    changed = True
+    rounds = 0
+    while changed and rounds < 8:
+        changed = False
+        rounds += 1
+        for f in fns:
+            for b, i, s in f.all_stmts():
+                for lv, op, rhs, w in ir.writes_of(s):
+                    l0 = ir.strip(lv)
+                    d = dim(f, rhs) if rhs is not None else None
+                    if l0.get("k") == "var" and not l0.get("pd"):
+                        changed |= setdim((f.name, l0["id"]), d)
+                    elif l0.get("k") == "mem":
+                        root, chain = ir.field_chain(l0)
+                        if isinstance(root, dict) and root.get("k") == "var" and not root.get("pd") and "p" not in root:
+                            changed |= setdim((f.name, root["id"], ".".join(x for _, x in chain)), d)
+                    if isinstance(rhs, dict) and rhs.get("k") == "init" and l0.get("k") == "var":
+                        for e in rhs.get("elts", []):
+                            if "f" in e:
+                                changed |= setdim((f.name, l0["id"], e["f"]), dim(f, e["v"]))
+                for c in ir.calls_in(s):
+                    g = prog.resolve(c["fn"], f) if c.get("fn") else None
+                    if g is None or g not in fns:
+                        continue
+                    for k, a in enumerate(c.get("args", [])):
+                        if k >= len(g.params):
+                            continue
+                        p = g.params[k]
+                        t = points_into(a)
+                        if t is not None and FIELD_DIM.get(t):
+                            changed |= setdim((g.name, "ptr", p["id"]), FIELD_DIM[t])
+                        else:
+                            a0 = ir.strip(a)
+                            if isinstance(a0, dict) and a0.get("k") == "var" and a0.get("pd") and "p" in a0:
+                                changed |= setdim((g.name, "ptr", p["id"]), dims.get((f.name, "ptr", a0["id"])))
+                            elif not p.get("pd"):
+                                changed |= setdim((g.name, p["id"]), dim(f, a))
+    # checks: comparisons and assignments stay within one dimension
+    for f in fns:
+        res.touched(f)
+        for b, i, s in f.all_stmts():
+            for x in ir.walk(s):
+                if x.get("k") == "bin" and x["op"] in ("<", ">", "<=", ">=", "==", "!="):
+                    a, bb = dim(f, x["l"]), dim(f, x["r"])
+                    if a and bb:
+                        checks.append((f, s, x, a, bb, "compares"))
+                if x.get("k") == "asg" and x["op"] in ("=", "+=", "-=") and "r" in x:
+                    a, bb = dim(f, x["l"]), dim(f, x["r"])
+                    if a and bb:
+                        checks.append((f, s, x, a, bb, "assigns"))
+    for f, s, x, a, b, what in checks:
+        inst = "%s:%s %s %s" % (f.name, s.get("line"), what, ir.render(x)[:60])
+        if a == b:
+            res.oblige(R, inst, True, "both are %ss" % a, f.loc(s))
+        else:
+            res.fail(R, inst, "R-DIM|%s|%s|%s-%s" % (f.name, what, a, b), f.loc(s),
+                     "%s %s a %s with a %s (%s): the cursor's lap count and byte position are mixed up" % (f.name, what, a, b, ir.render(x)))
+    for f, n, msg in findings:
+        res.fail(R, "%s: %s" % (f.name, ir.render(n)[:50]), "R-DIM|%s|arith" % f.name, f.loc(), "%s %s" % (f.name, msg))
+    # lexicographic order: a function comparing two cursors given as scalar
+    # parameters decides on the lap first
+    for f in fns:
+        pd = {p["id"]: dims.get((f.name, p["id"])) for p in f.params if not p.get("pd")}
+        if sum(1 for v in pd.values() if v == CYC) >= 2 and sum(1 for v in pd.values() if v == POS) >= 2 or \
+                (len(f.params) == 4 and all(not p.get("pd") for p in f.params) and any(pd.values())):
+            # first comparison reached from the entry
+            order = []
+            seen = set()
+            st = [f.entry]
+            while st:
+                bid = st.pop(0)
+                if bid in seen:
+                    continue
+                seen.add(bid)
+                c = f.blocks[bid].cond_node()
+                if c is not None:
+                    ds = {dim(f, y) for y in ir.walk(c) if y.get("k") == "var"} - {None}
+                    if ds:
+                        order.append((bid, ds))
+                st.extend(f.blocks[bid].succ_ids())
+            if order:
+                first = order[0][1]
+                inst = "%s compares the lap before the position" % f.name
+                if first == {CYC}:
+                    res.oblige(R, inst, True, "first decision on the lap counts", f.loc())
+                else:
+                    res.fail(R, inst, "R-DIM|%s|lexicographic" % f.name, f.loc(),
+                             "%s orders two cursors by their %s first: a reader one lap behind but at a higher offset is no longer the slowest, so the writer can overwrite bytes it has not consumed"
+                             % (f.name, "/".join(sorted(first))))
+    return len(checks)
+
+
+# ---------------------------------------------------------------------------
+# C02
+
+def rule_write_guard(prog, res):
+    """channel_write_map hands out a region only when, under one continuous
+    hold of the lock, either no reader is registered or next_write() said the
+    region fits against the slowest reader."""
+    R = "R-WRITE-GUARD"
+    f = prog.func("channel_write_map")
+    res.touched(f)
+    la = LockAnalysis(prog)
+    al = la.aliases(f)
+    # targets: store to channel.mapped and every return of a non-constant pointer
+    targets = []
+    for b, i, s in f.all_stmts():
+        for lv, op, rhs, w in ir.writes_of(s):
+            if la.lvalue_key(f, lv, al) == ("channel", "mapped"):
+                targets.append((b.id, i, s, "store to channel.mapped"))
+    if not targets:
+        raise AnalysisBroken("channel_write_map no longer records the mapped region")
+
+    def grant_edge(blk, succ):
+        c = ir.strip(blk.cond_node())
+        lab = succ.get("label")
+        neg = False
+        while isinstance(c, dict) and c.get("k") == "un" and c.get("op") == "!":
+            neg = not neg
+            c = ir.strip(c["e"])
+        if not isinstance(c, dict):
+            return None
+        if c.get("k") == "call" and c.get("fn") == "next_write":
+            return "space" if lab == ("false" if neg else "true") else None
+        if c.get("k") == "mem" and obj_key(c) == ("channel", "holds.n"):
+            return "no-readers" if lab == ("true" if neg else "false") else None
+        return None
+
+    def simple(c):
+        c = ir.strip(c)
+        neg = False
+        while isinstance(c, dict) and c.get("k") == "un" and c.get("op") == "!":
+            neg = not neg
+            c = ir.strip(c["e"])
+        if isinstance(c, dict) and c.get("k") == "mem":
+            return obj_key(c), neg
+        return None, False
+
+    evm = la.events(f)
+    for tb, ti, ts, what in targets:
+        # search for a path entry -> target that never takes a grant edge, or
+        # that waits / releases the lock after the grant; knowledge of flag
+        # values (same lock hold) prunes contradictory branches
+        bad = None
+        seen = set()
+        st = [(f.entry, 0, None, ())]   # block, start idx, grant, knowledge
+        while st and bad is None:
+            bid, start, grant, know = st.pop()
+            key = (bid, start, grant, know)
+            if key in seen:
+                continue
+            seen.add(key)
+            blk = f.blocks[bid]
+            g2, k2 = grant, dict(know)
+            hit = False
+            for j in range(start, len(blk.stmts)):
+                if bid == tb and j == ti:
+                    hit = True
+                    break
+                for ev in evm[bid][j]:
+                    if ev[0] in ("wait", "rel"):
+                        g2 = None      # the guarantee ends with the lock hold
+                        k2 = {}
+                    if ev[0] == "w" and ev[1] in k2:
+                        del k2[ev[1]]
+            if hit:
+                if g2 is None:
+                    bad = (bid, grant)
+                continue
+            for sc in blk.succs:
+                t = sc.get("to")
+                if t is None:
+                    continue
+                g3, k3 = g2, dict(k2)
+                if len(blk.succs) >= 2 and blk.cond_node() is not None:
+                    ge = grant_edge(blk, sc)
+                    if ge:
+                        g3 = ge
+                    fk, neg = simple(blk.cond_node())
+                    if fk is not None and sc.get("label") in ("true", "false"):
+                        val = (sc["label"] == "true") != neg
+                        if fk in k3 and k3[fk] != val:
+                            continue  # contradicts what this lock hold already saw
+                        k3[fk] = val
+                st.append((t, 0, g3, tuple(sorted(k3.items()))))
+        inst = "channel_write_map: %s only after space was established under the same lock hold" % what
+        if bad is None:
+            res.oblige(R, inst, True,
+                       "every path passes the 'no readers' or the 'next_write() succeeded' edge with no wait/unlock in between",
+                       f.loc(ts))
+        else:
+            res.fail(R, inst, "R-WRITE-GUARD|channel_write_map|%s" % what.split()[-1], f.loc(ts),
+                     "channel_write_map can record/hand out a region on a path where space against the slowest reader was not (or no longer) established under the current hold of the lock: the writer may be given bytes a reader has not consumed")
+    # the wait loop re-evaluates next_write after every wake-up (L-RECHECK is C03's)
+    return len(targets)
+
+
+def rule_encaps(prog, res, la):
+    """Only channel.c moves the cursors."""
+    R = "R-ENCAPS"
+    allowed_reads = {
+        "video_sink_bytes_waiting": "advisory statistic (acquire_bytes_waiting_to_be_written_to_disk)",
+    }
+    n = 0
+    for f in prog.all_funcs():
+        if f.file.endswith("runtime/channel.c"):
+            continue
+        accs, _, _ = la.accesses(f)
+        for a, held in accs:
+            if a.key[0] not in ("channel", "channel_reader"):
+                continue
+            n += 1
+            res.touched(f)
+            inst = "%s %s %s.%s" % (f.name, "writes" if a.mode == "w" else "reads", a.key[0], a.key[1])
+            if a.mode == "w":
+                res.fail(R, inst, "R-ENCAPS|%s|w|%s.%s" % (f.name, a.key[0], a.key[1]), a.loc(),
+                         "%s (outside channel.c) writes %s.%s: cursor state is changed without the channel's lock and invariants" % (f.name, a.key[0], a.key[1]))
+            elif a.key[0] == "channel_reader" and a.key[1] in ("state", "status", "id"):
+                res.oblige(R, inst, True, "read of the reader's public state/status/id", a.loc())
+            elif f.name in allowed_reads:
+                res.oblige(R, inst, True, "exempt: " + allowed_reads[f.name], a.loc())
+            else:
+                res.fail(R, inst, "R-ENCAPS|%s|r|%s.%s" % (f.name, a.key[0], a.key[1]), a.loc(),
+                         "%s (outside channel.c) reads the cursor field %s.%s without the channel lock" % (f.name, a.key[0], a.key[1]))
+    return n
